@@ -455,7 +455,7 @@ theorem aw_cons (cfg : CheckCfg) (hd : cfg.dt.retypeAnyParam = false) (ins : Lis
       -- a retyped literal has a numeric parameter type
       have hn : isNumberT (paramFor ins v numIn off i) = true := by
         simp only [retypes, retypeOk, hd, Bool.false_or, Bool.and_eq_true] at hre
-        exact hre.1.2
+        exact hre.1.2.1
       cases hT : paramFor ins v numIn off i with
       | none => rw [hT] at hn; simp [isNumberT, isIntegerT, isFloatT, OTy.deref, OTy.kind, RKind.isIntKind, RKind.isFloatKind] at hn
       | some ty => rw [hT] at hp; exact plain_some_int ty hp
